@@ -152,8 +152,6 @@ def item_json(con, nd, sups, user_level):
                 "vals": [fr(v) for v in vals]}
     if isinstance(con, RoConstr):
         sense = con.sense[0] if isinstance(con.sense, np.ndarray) else con.sense
-        if sense != 0 and not user_level:
-            raise AssertionError('all_constr holds a robust equality')
         return {"k": "robeq" if sense != 0 else "rob", "rows": rows_json(con.raffine, con.affine, nd),
                 "support": sups.ref(con.support)}
     raise NotImplementedError(type(con).__name__)
